@@ -1457,7 +1457,7 @@ REP_SPECS = ('Boolean', 'Byte', 'Integer', 'Long', 'Double', 'VarInt',
              ('PrefixedArray', 'Short', 'String'))
 SEND_EXC = ('BrokenPipeError', 'InterruptedError', 'KeyError')
 READ_EXC = ('ConnectionResetError', 'InterruptedError', 'KeyError',
-            'end of stream')
+            'TimeoutError', 'BlockingIOError', 'end of stream')
 
 
 # Inputs that are NOT the encoding of any value (nor a strict prefix of one):
@@ -1503,6 +1503,9 @@ def make_exc(kind):
                 104, 'Connection reset by peer'),
             'InterruptedError': InterruptedError(
                 4, 'Interrupted system call'),
+            'TimeoutError': TimeoutError('timed out'),
+            'BlockingIOError': BlockingIOError(
+                11, 'Resource temporarily unavailable'),
             'KeyError': KeyError('transport')}[kind]
 
 
@@ -1541,6 +1544,13 @@ class FaultStream(object):
             raise make_exc(self.kind)
         return self.pb.read(n) if n is not None and n >= 0 \
             else self.pb.read()
+
+    def refill(self, data):
+        """the same object, from now on an ordinary stream over `data`"""
+        self.pb = env().PacketBuffer()
+        self.pb.send(data)
+        self.pb.reset_cursor()
+        self.k, self.kind, self.calls = 0, None, 0
 
 
 class ReSink(object):
@@ -1647,6 +1657,19 @@ def run_fault(R, item, before=()):
             ctx.cls('history: read failed with %s' % exc)
         if not st.failed:
             ctx.cls('history: fault point beyond the operation')
+        # the same stream object, refilled: only its content now may matter
+        st.refill(ea + SENT)
+        r2 = read_from(sa, st)
+        left = len(st.pb.read())
+        ctx.count()
+        if r2[0] != 'value' or not same(sa, r2[1], va) or left != len(SENT):
+            R.fail('%s decode from the same stream object after a failed '
+                   'read: wrong result' % family(sa), 0, pre,
+                   '%s; the same stream object was then given the content '
+                   '%s + sentinel a55a: %s.read gave %s and left %d byte(s), '
+                   'expected %s and 2' % (pre, hexs(ea), name(sa),
+                                          short(r2[1:]), left, short(va)),
+                   case)
     elif kind == 'malformed':
         label, data = dict(MALFORMED)[REP_SPECS[ia]][k]
         buf = PB()
